@@ -13,10 +13,10 @@ ASSUMPTIONS = [
 ]
 
 WITNESS = {
-    "F-33": (BY["I"], "I reg s 0 0 - 1 1 0 - r reg s 1 0 - 0 res 0 0 -", "cross-container-spurious-cycle"),
-    "F-33-global": (BY["G"], "G reg s 1 0 - 1 0 0 - r reg s 0 0 - 0 res 1 0 -", "cross-container-spurious-cycle"),
+    "F-33-xcontainer": (BY["I"], "I reg s 0 0 - 1 1 0 - r reg s 1 0 - 0 res 0 0 -", "cross-container-spurious-cycle"),
+    "F-33-xcontainer-global": (BY["G"], "G reg s 1 0 - 1 0 0 - r reg s 0 0 - 0 res 1 0 -", "cross-container-spurious-cycle"),
     "F-24": (BY["I"], "I selfreg s 0 -", "hang-register-in-factory"),
-    "F-33-local": (BY["L"], "L reg t 0 0 a 1 1 0 a o reg t 1 0 a 0 res 0 0 a", "cross-container-spurious-cycle"),
+    "F-33-xcontainer-local": (BY["L"], "L reg t 0 0 a 1 1 0 a o reg t 1 0 a 0 res 0 0 a", "cross-container-spurious-cycle"),
 }
 
 
